@@ -40,6 +40,7 @@ fn reads(has_body: bool) -> Vec<(&'static str, ReadPlan)> {
         v.push(("read3by7", ReadPlan::part(7, 3)));
         v.push(("readall", ReadPlan::all(4096)));
         v.push(("read_to_end", ReadPlan::ReadToEnd));
+        v.push(("read_vectored", ReadPlan::OtherMethod { method: 0 }));
     }
     v
 }
@@ -47,8 +48,11 @@ fn reads(has_body: bool) -> Vec<(&'static str, ReadPlan)> {
 fn finishes() -> Vec<(&'static str, Finish)> {
     vec![
         ("respond", Finish::Respond(RespSpec::ok(3))),
+        ("respond-undeclared300", Finish::Respond(RespSpec { status: 200, body_len: 300, declared: false, threshold: None, headers: 0 })),
+        ("respond-declared40000", Finish::Respond(RespSpec { status: 200, body_len: 40000, declared: true, threshold: None, headers: 0 })),
         ("drop", Finish::Drop),
         ("writer", Finish::Writer { parts: raw_response_parts(1, 4, 2), flush: true }),
+        ("writer-vectored", Finish::Writer { parts: { let mut p = vec![Vec::new()]; p.extend(raw_response_parts(1, 4, 2)); p }, flush: true }),
         ("writer-unused", Finish::Writer { parts: vec![], flush: false }),
         ("panic", Finish::Panic),
     ]
@@ -80,7 +84,7 @@ pub fn cases(tier: Tier) -> &'static Vec<PCase> {
                                         continue;
                                     }
                                     for &pos in &positions {
-                                        if pos >= 70 && (rl == "read3by7" || fl == "writer-unused") && tier == Tier::Quick {
+                                        if pos >= 70 && (rl == "read3by7" || fl == "writer-unused" || fl.starts_with("respond-")) && tier == Tier::Quick {
                                             continue;
                                         }
                                         let conn_line = if close { "Connection: close\r\n" } else { ka };
@@ -144,7 +148,7 @@ pub fn n_items(tier: Tier) -> u64 {
     cases(tier).len() as u64
 }
 
-pub const RULE: &str = "feature product (shared, props/product.rs): version {1.1, 1.0 keep-alive} x {GET, HEAD, POST with Content-Length 5 / 1025 / 3000, chunked 10 / 1025} x Expect: 100-continue or not x Connection: close or not x application reads {nothing, 3 bytes, all, to end-of-stream} x finishes by {respond, drop, raw writer, unused raw writer, panic} x client {sends the body, withholds it until a 100 arrives} x position {first, second, after 70 (thorough: 1030) answered exchanges}, a GET following; judged by the reference model, this property reporting the clauses";
+pub const RULE: &str = "feature product (shared, props/product.rs): version {1.1, 1.0 keep-alive} x {GET, HEAD, POST with Content-Length 5 / 1025 / 3000, chunked 10 / 1025} x Expect: 100-continue or not x Connection: close or not x application reads {nothing, 3 bytes, all, to end-of-stream, all through read_vectored} x finishes by {respond with a small declared body / 300 bytes of undeclared length / 40000 declared bytes, drop, raw writer (write_all / write_vectored), unused raw writer, panic} x client {sends the body, withholds it until a 100 arrives} x position {first, second, after 70 (thorough: 1030) answered exchanges}, a GET following; judged by the reference model, this property reporting the clauses";
 
 /// Runs product item `idx` and reports the failures whose clause is in `clauses`.
 pub fn run_item(idx: u64, tier: Tier, acc: &mut Acc, clauses: &[&str]) {
